@@ -13,7 +13,8 @@
      ldoc                a document TOGETHER WITH one layout of it: per definition the indentation,
                          the blanks round '=', the trailing blanks (any of space \t \v \f \r, any
                          number: a line may be padded to any length; a pad ending in \r is a CRLF
-                         line end), blank / ';' / '#' lines in front of it, and the continuation
+                         line end), an optional in-line ';' / '#' remark behind it, blank / ';' /
+                         '#' lines in front of it, and the continuation
                          points (pad '\' pad newline pad) at single blanks of the value; per
                          section the same round the header; blank/comment lines at the end;
                          final newline or not.
@@ -21,8 +22,9 @@
      wf_doc              keys: non-empty, trimmed, no '=' '#' ';' newline, not starting with '[';
                          values: trimmed, no '#' ';' newline, not ending in '\'; names: no newline.
      wf_layout           pads are blanks, continuation parts are non-empty and trimmed (= the
-                         split points are single blanks), and the LAST continuation line is not
-                         of the form [...] (finding F34, see continuation_header_refuted).
+                         split points are single blanks), an in-line remark does not end in '\'
+                         or ']', and the LAST continuation line is not of the form [...]
+                         (finding F34, see continuation_header_refuted).
      cfg_doc d           the (section, key, value) entries d defines, newest first. *)
 From Coq Require Import List Ascii String Bool Permutation.
 Import ListNotations.
@@ -208,13 +210,13 @@ Definition C08_example : ldoc :=
                  (L "g(r.sub, p.sub) &&")
                  [ mkCont (C08_sp 4100) [CR] (C08_sp 8200) (L "r.obj == p.obj &&");   (* lines past 4 KiB and 8 KiB *)
                    mkCont [] [SP; CR] [C08_tab] (L "r.act in [p.act] || r.sub == 'k=v'") ]
-                 (C08_sp 5000 ++ [CR]) ];
-      mkLsec [] [] (L "request_definition") [CR] [ mkLdef [] [] (L "r") [] [] (L "sub, obj, act") [] [CR] ];
+                 (C08_sp 5000) (Some (false, L " in-line remark; m = wrong [x] \ ." ++ [CR])) ];
+      mkLsec [] [] (L "request_definition") [CR] [ mkLdef [] [] (L "r") [] [] (L "sub, obj, act") [] [CR] None ];
       mkLsec [] [] (L "policy_definition") [CR]
-        [ mkLdef [] [] (L "p") [SP] [SP] (L "sub, obj, act") [] [CR];
-          mkLdef [] [] (L "p") [SP] [SP] (L "sub,obj") [mkCont [SP] [] [] (L ", act")] [] ];   (* a later duplicate wins *)
-      mkLsec [] [] (L "role_definition") [] [ mkLdef [] [] (L "g") [SP] [SP] (L "_, _") [] [] ];
-      mkLsec [] [] (L "policy_effect") [] [ mkLdef [] [] (L "e") [SP] [SP] (L "some(where (p.eft == allow))") [] (C08_sp 4096) ] ]
+        [ mkLdef [] [] (L "p") [SP] [SP] (L "sub, obj, act") [] [SP] (Some (true, L " Policy definition" ++ [CR]));
+          mkLdef [] [] (L "p") [SP] [SP] (L "sub,obj") [mkCont [SP] [] [] (L ", act")] [] None ];   (* a later duplicate wins *)
+      mkLsec [] [] (L "role_definition") [] [ mkLdef [] [] (L "g") [SP] [SP] (L "_, _") [] [] None ];
+      mkLsec [] [] (L "policy_effect") [] [ mkLdef [] [] (L "e") [SP] [SP] (L "some(where (p.eft == allow))") [] (C08_sp 4096) None ] ]
     [] false.                                                                           (* no final newline *)
 
 Example C08_nonvacuous :
